@@ -109,7 +109,7 @@ func c09Legs(c *core.Ctx, only map[string]bool) {
 
 const c09Rule = "concurrent histories recorded on the REAL stores in child processes (3-4 goroutines x 3-6 ops on 1-2 shared mailboxes, start barrier, " +
 		"inv/resp from one atomic counter, final listing of every mailbox at quiescence; legs mem-plain, mem-cap(2), mem-limit(1 KiB), mem-cap-limit, " +
-		"file-plain, file-cap(2) with lock-bucket-colliding names), each checked for linearizability against Spec.Store by the Lean Wing-Gong checker (driver mode lin; " +
+		"file-plain, file-cap(2) with lock-bucket-colliding names, file-scarce / file-scarce-cap: the same while the process has one or two free file descriptors and other clients keep taking them — operations answering EMFILE are dropped, what they announced enters as optional removals), each checked for linearizability against Spec.Store by the Lean Wing-Gong checker (driver mode lin; " +
 		"size-enforcer evictions enter as optional b/ ops derived from deleted events); implementation-only oracles per history (no panic, no error, ids distinct, " +
 		"delivered-stays via deleted events, cap / size bound at quiescence, listing order); visit legs (VisitMailboxes + retention scan never err while directories " +
 		"come and go, an untouched mailbox is reported exactly once); stress legs (mem cap 3 maxkb 4, file cap 3); child crash / deadlock / race report are observed outcomes; " +
@@ -135,10 +135,12 @@ func c09Run(c *core.Ctx, only map[string]bool) {
 	type leg struct {
 		name, store string
 		cap, maxkb  int
+		scarce      int // free file descriptors while the goroutines of a history run (c09_scarce.go); 0 = plenty
 	}
-	legs := []leg{{"file-plain", "file", 0, 0}, {"file-cap", "file", 2, 0}, // (the slow ones first)
-		{"mem-plain", "mem", 0, 0}, {"mem-cap", "mem", 2, 0}, {"mem-limit", "mem", 0, 1}, {"mem-cap-limit", "mem", 2, 1}}
-	shards := map[string]int{"mem": c.Scale(2, 8), "file": c.Scale(4, 16)}
+	legs := []leg{{"file-plain", "file", 0, 0, 0}, {"file-cap", "file", 2, 0, 0}, // (the slow ones first)
+		{"file-scarce", "file", 0, 0, 1}, {"file-scarce-cap", "file", 2, 0, 1},
+		{"mem-plain", "mem", 0, 0, 0}, {"mem-cap", "mem", 2, 0, 0}, {"mem-limit", "mem", 0, 1, 0}, {"mem-cap-limit", "mem", 2, 1, 0}}
+	shards := map[string]int{"mem": c.Scale(2, 8), "file": c.Scale(4, 16), "scarce": c.Scale(2, 8)}
 	per := map[string]int{"mem": c.Scale(300, 1000), "file": c.Scale(100, 350)}
 	var batches []c09Spec
 	nStress := c.Scale(1, 3)
@@ -154,8 +156,18 @@ func c09Run(c *core.Ctx, only map[string]bool) {
 	}
 	for sh := 0; sh < 16; sh++ {
 		for _, l := range legs {
-			if sh < shards[l.store] {
-				batches = append(batches, c09Spec{Kind: "lin", Leg: l.name, Store: l.store, Cap: l.cap, MaxKB: l.maxkb, Shard: sh, From: 0, To: per[l.store]})
+			n := shards[l.store]
+			scarce := l.scarce
+			if scarce > 0 {
+				n = shards["scarce"]
+				scarce += sh % 2 // one or two free descriptors
+			}
+			to := per[l.store]
+			if scarce > 0 {
+				to = to * 6 / 10
+			}
+			if sh < n {
+				batches = append(batches, c09Spec{Kind: "lin", Leg: l.name, Store: l.store, Cap: l.cap, MaxKB: l.maxkb, Shard: sh, From: 0, To: to, Scarce: scarce})
 			}
 		}
 	}
